@@ -240,3 +240,56 @@ func everyIterationCalls(f *ssa.Function, pred func(c ssa.CallInstruction) bool)
 	}
 	return true, true, ""
 }
+
+// loopOnlyLeavesAtHead: the innermost loop of f containing a call satisfying
+// pred is left only through its header (the range/condition test) or through
+// blocks that do not continue (return/panic): no `break` ends it early.
+func loopOnlyLeavesAtHead(f *ssa.Function, pred func(c ssa.CallInstruction) bool) (found, ok bool, why string) {
+	var best *ssaLoop
+	loops := ssaLoops(f)
+	for i := range loops {
+		body := loops[i].body()
+		for b := range body {
+			for _, in := range b.Instrs {
+				if c, isC := in.(ssa.CallInstruction); isC && pred(c) {
+					if best == nil || len(body) < len(best.body()) {
+						best = &loops[i]
+					}
+				}
+			}
+		}
+	}
+	if best == nil {
+		return false, false, "no loop contains the call"
+	}
+	body := best.body()
+	normalExit := map[*ssa.BasicBlock]bool{}
+	for _, s := range best.Header.Succs {
+		if !body[s] {
+			normalExit[s] = true
+		}
+	}
+	for b := range body {
+		if b == best.Header {
+			continue
+		}
+		for _, s := range b.Succs {
+			if !body[s] && normalExit[s] {
+				return true, false, "block " + b.Comment + " breaks out of the loop"
+			}
+			if !body[s] {
+				// leaving the loop from inside: fine only if that successor never continues normally past the loop…
+				// a `return` block has no successors; anything else is a break
+				if len(s.Succs) != 0 {
+					return true, false, "block " + b.Comment + " leaves the loop early"
+				}
+				if _, isRet := s.Instrs[len(s.Instrs)-1].(*ssa.Return); !isRet {
+					if _, isPanic := s.Instrs[len(s.Instrs)-1].(*ssa.Panic); !isPanic {
+						return true, false, "block " + b.Comment + " leaves the loop early"
+					}
+				}
+			}
+		}
+	}
+	return true, true, ""
+}
